@@ -212,7 +212,7 @@ func cmacWorkload() {
 
 	maxLen := r.Pick(100, 200)
 	// deterministic keys first (one per cipher), then seeded keys
-	nKeys := r.Pick(2, 5)
+	nKeys := r.Pick(3, 8)
 	for si, spec := range blockSpecs {
 		for ki := 0; ki < nKeys; ki++ {
 			var key []byte
@@ -267,7 +267,7 @@ func cmacWorkload() {
 	r.Extra("cmac_subkey_branch_classes_seen", len(seen))
 
 	// operation strings over {Write(chunk), Sum, Reset} on long-lived objects
-	nOps := r.Pick(3000, 40000)
+	nOps := r.Pick(30000, 400000)
 	for t := 0; t < nOps; t++ {
 		spec := blockSpecs[rng.IntN(len(blockSpecs))]
 		key := gen.Bytes(rng, spec.klen)
@@ -311,7 +311,7 @@ func cmacWorkload() {
 	}
 
 	// long messages in random chunkings
-	for t := 0; t < r.Pick(10, 60); t++ {
+	for t := 0; t < r.Pick(20, 200); t++ {
 		spec := blockSpecs[t%len(blockSpecs)]
 		key := gen.Bytes(rng, spec.klen)
 		blk := spec.mk(key)
